@@ -309,3 +309,18 @@ def revisit_family(atom='a'):
     past = [lambda g: ('prev', None, g), lambda g: ('prev', 2, g), lambda g: ('wprev', None, g), lambda g: ('since', None, g), lambda g: ('trigger', None, g), lambda g: ('initially', g),
             lambda g: ('or', ('prev', None, g), ('prev', 2, g)), lambda g: ('and', ('wprev', None, g), ('prev', None, ('wprev', None, g)))]
     return [w(c) for c in chains for w in past]
+
+
+def sibling_pairs():
+    """fixed family: a formula and every formula that differs from it in one weak / strong or dual flag"""
+    import random as _r, json as _j
+    a, b = ('atom', 'a'), ('atom', 'b')
+    out = []
+    for f in [('prev', None, a), ('wprev', None, a), ('prev', 2, a), ('next', None, a), ('wnext', None, a), ('next', 2, a), ('until', a, b), ('release', a, b), ('since', a, b), ('trigger', a, b),
+              ('until', None, a), ('since', None, a), ('seqnext', a, b), ('seqprev', a, b), ('and', a, ('prev', None, b)), ('initially', a), ('or', ('wprev', None, a), ('wnext', None, b))]:
+        sibs = set()
+        for j in range(8):
+            sibs.add(sibling(_r.Random(j), f))
+        for g in sorted(sibs - {f}, key=_j.dumps):
+            out.append((f, g))
+    return out
